@@ -89,6 +89,12 @@ func CheckC04(p *Program, o *Outcome) []Fail {
 	}
 	classes := map[string]bool{}
 	exp := InitMap(p)
+	multiRem := false
+	for i := range p.Writers {
+		if PatternOf(&p.Writers[i], init).RemovedExisting >= 2 {
+			multiRem = true
+		}
+	}
 	for i := range p.Writers {
 		w, wo := &p.Writers[i], &o.W[i]
 		pat := PatternOf(w, init)
@@ -100,6 +106,9 @@ func CheckC04(p *Program, o *Outcome) []Fail {
 				classes["merge-remove-then-add"] = true
 			case wo.Merges >= 1 && pat.GetThenShift && strings.Contains(wo.CommitErr, "failed to find item"):
 				classes["merge-get-then-shift"] = true
+			case multiRem && ((wo.Merges >= 1 && pat.RemovedExisting >= 2 && strings.Contains(wo.CommitErr, "failed to find item")) ||
+				(pat.ChangesExisting && strings.Contains(wo.CommitErr, "call detected conflict") && !wo.LockFailMerge)):
+				classes["multi-remove-tracks-wrong-item"] = true
 			case wo.LockFailMerge && pat.ChangesExisting && strings.Contains(wo.CommitErr, "call detected conflict"):
 				classes["merge-self-item-lock-conflict"] = true
 			case wo.Merges >= 1 && pat.RemovesExisting && len(p.Init) > p.Store.Slot &&
@@ -373,7 +382,11 @@ func LoadReplay(path string) (*Program, error) {
 func OutsideModel(p *Program) bool {
 	init := InitMap(p)
 	for i := range p.Writers {
-		if PatternOf(&p.Writers[i], init).GetThenShift {
+		pat := PatternOf(&p.Writers[i], init)
+		if pat.GetThenShift || pat.RemovedExisting >= 2 {
+			return true
+		}
+		if pat.RemovesExisting && len(p.Init) > p.Store.Slot { // the removed item may sit in an inner node
 			return true
 		}
 	}
